@@ -7,3 +7,5 @@ def run(ctx, rep):
     order.rule_colorder_table(mod, rep)
     order.rule_get_perm_c_mustwrite(mod, rep)
     order.rule_A_immutable(mod, rep, ["sp_colorder", "get_perm_c", "sp_coletree", "sp_symetree", "qrnzcnt", "cholnzcnt", "p?gstrf"])
+    from ..rules import misc
+    misc.rule_min_identity(mod, rep, which=('firstcol',))
